@@ -169,9 +169,28 @@ def run(R, env):
             dw = c.assume_variant(msgp, v)
             stored_v = lambda x: x[0] == "field" and x[2] == "version" and x[1][0] == "payload" and shared.unwrap_payload(x[1])[0] == "call" and shared.unwrap_payload(x[1])[1] == "cw2::get_contract_version"
 
+            def parsed_arg(t_):
+                # t_ = Ok value of <s>.parse::<Version>() (directly or through a local parsing helper): s, as this world sees it
+                if t_[0] != "payload":
+                    return None
+                from engine.analysis import forms as _f18
+                for tf in _f18(prog, t_, 3, dw.assumptions):
+                    ps = [s_ for s_ in subterms(tf) if s_[0] == "call" and s_[1] == "core::str::parse" and s_[2]]
+                    if tf[0] == "payload" and len(ps) == 1:
+                        return ps[0][2][0]
+                return None
+
             def ver_eq(t_):
                 if t_[0] == "call" and t_[1] in EQ and len(t_[2]) == 2:
                     for x, y in ((t_[2][0], t_[2][1]), (t_[2][1], t_[2][0])):
+                        px, py = parsed_arg(x), parsed_arg(y)
+                        if px is not None and py is not None and stored_v(px):
+                            # both sides parsed as versions (`parse(stored.version)? != parse(msg.source_version())?`):
+                            # equal exactly when the stored string is that version (semver has one spelling per version)
+                            yv = const_str(py) or const_str(_rt6(prog, py, 2, None, dw.assumptions))
+                            seen_v.append(yv)
+                            if yv == want:
+                                return EQ[t_[1]]
                         if stored_v(x):
                             yv = const_str(y)
                             if yv is None:
